@@ -350,10 +350,54 @@ _FB = _FB + [_UW]
 for _sp in _FB:
     _sp['gen_file'] = _FB_GEN
 
+# boltons.dictutils.OrderedMultiDict (round 3b, target C; heap mode).  The object IS a dict key -> list of values (`d`,
+# reached as `self` / `super()`); `_map : key -> list of cells`; the cells `[PREV, NEXT, KEY, VALUE]` and `root`
+# (`[PREV, NEXT, None]`) live in the object store.  The per-key lists of `d` and `_map` are referenced only from their dict
+# (and, briefly, from locals): they are VALUE lists mutated through ITEM ALIASES (notes/SRCTIE.md), which is the
+# representation of C01/Concrete.lean (`OMD3`: `vals`, `PL.map`).  Not translated here: `__new__/__init__`, the readers and
+# iterators, `update*`, `setdefault`, `copy`, `poplast`/`popitem` (they read a KEY back out of a cell).
+OMD = {
+    'name': 'OrderedMultiDict', 'lean_name': 'OMD', 'tparams': ['κ', 'ν'], 'deceq': ['κ'], 'inhabited': ['ν'],
+    'heap': {'field': 'heap', 'key': 'κ', 'val': 'ν'},
+    'state': {'heap': 'Heap', 'd': 'Dict κ (List ν)', '_map': 'Dict κ (List Val)', 'root': 'Val'},
+    'virtual': ['heap', 'd'], 'dict_base': 'd', 'sentinels': ['_MISSING'],
+}
+_OMD = _cls_methods(OMD, 'boltons.dictutils', [
+    {'py': '_clear_ll', 'name': 'clear_ll', 'params': {}, 'result': 'None',
+     'tie_theorem': 'C01.src_clear_ll_eq_model'},
+    {'py': '_insert', 'name': 'insert', 'params': {'k': 'κ', 'v': 'ν'}, 'result': 'None',
+     'tie_theorem': 'C01.src_insert_eq_model'},
+    {'py': '_remove', 'name': 'remove', 'params': {'k': 'κ'}, 'result': 'None',
+     'tie_theorem': 'C01.src_remove_eq_model'},
+    {'py': '_remove_all', 'name': 'remove_all', 'params': {'k': 'κ'}, 'result': 'None', 'loop_fuel': True,
+     'tie_theorem': 'C01.src_remove_all_eq_model'},
+    {'py': 'add', 'name': 'add', 'params': {'k': 'κ', 'v': 'ν'}, 'result': 'None',
+     'tie_theorem': 'C01.src_add_eq_model'},
+    {'py': 'addlist', 'name': 'addlist', 'params': {'k': 'κ', 'v': 'List ν'}, 'result': 'None',
+     'tie_theorem': 'C01.src_addlist_eq_model'},
+    {'py': '__setitem__', 'name': 'setitem', 'params': {'k': 'κ', 'v': 'ν'}, 'result': 'None', 'loop_fuel': True,
+     'tie_theorem': 'C01.src_setitem_eq_model'},
+    {'py': '__delitem__', 'name': 'delitem', 'params': {'k': 'κ'}, 'result': 'None', 'loop_fuel': True,
+     'tie_theorem': 'C01.src_delitem_eq_model'},
+    {'py': 'popall', 'name': 'popall', 'params': {'k': 'κ', 'default': 'Option (List ν)'}, 'result': 'List ν',
+     'loop_fuel': True, 'tie_theorem': 'C01.src_popall_eq_model'},
+    {'py': 'clear', 'name': 'clear', 'params': {}, 'result': 'None',
+     'tie_theorem': 'C01.src_clear_eq_model'},
+])
+for _sp in _OMD:
+    _sp['gen_file'] = 'dictutils_omd'
+
+# C03 (lock discipline of LRI / LRU) is anchored in the same methods: the same generated definitions, the ties restated
+# under C03 names in lean/BoltonsVerif/C03/SrcTie.lean together with the serializability of the generated machine.
+# (Copies of the C02 specs that differ in `tie_theorem` only; `py2lean.generate` emits one definition per `lean_name`.)
+_C03 = [dict(_sp, tie_theorem=_sp['tie_theorem'].replace('C02.', 'C03.')) for _sp in _LRI + _LRU]
+
 SPECS = {
     'C18': _MFR + _SB,
     'C13': _FB,
+    'C01': _OMD,
     'C02': _LRI + _LRU,
+    'C03': _C03,
     'C20': _TC,
     'C17': _OTO + _M2M,
     'C09': [
